@@ -94,6 +94,11 @@ func (i *Inst) Send() (header.TxnID, error) {
 	return i.S.SendOnce(context.Background(), i.Env.Env)
 }
 
+// SendCtx runs the real SendOnce with the given context.
+func (i *Inst) SendCtx(ctx context.Context) (header.TxnID, error) {
+	return i.S.SendOnce(ctx, i.Env.Env)
+}
+
 // Load runs the real LoadOnce on a blob of the bucket.
 func (i *Inst) Load(blobName string, data []byte, last header.TxnID) (header.TxnID, bool, error) {
 	ni, err := snapshot.ParseName(blobName)
